@@ -283,7 +283,9 @@ def _run_hypothesis(prop, clause, ctx, tier, shard, nexamples, seed):
         deadline=None,
         derandomize=False,
         report_multiple_bugs=False,
-        phases=[Phase.generate, Phase.shrink],
+        # quick tier: no Hypothesis shrinking (hard 5 min cap per failing shard);
+        # programs are still minimised by ddmin_ops
+        phases=[Phase.generate] + ([Phase.shrink] if tier == "thorough" else []),
         suppress_health_check=[
             HealthCheck.too_slow,
             HealthCheck.data_too_large,
@@ -336,8 +338,12 @@ def load_findings(prop: str) -> list[dict]:
     return [e for e in data.get("findings", []) if e["property"] == prop]
 
 
+def evidence_dir() -> str:
+    return os.environ.get("PV_EVIDENCE_DIR") or os.path.join(env.VERIF_ROOT, "evidence")
+
+
 def write_replay(prop: str, viol: dict) -> str:
-    d = os.path.join(env.VERIF_ROOT, "evidence", "replays")
+    d = os.path.join(evidence_dir(), "replays")
     os.makedirs(d, exist_ok=True)
     body = dict(
         property=prop,
@@ -350,7 +356,7 @@ def write_replay(prop: str, viol: dict) -> str:
     path = os.path.join(d, f"{prop}-{viol['clause_name']}-{h}.json")
     with open(path, "w") as f:
         f.write(json.dumps(body, indent=1, default=_jd))
-    return os.path.relpath(path, env.VERIF_ROOT)
+    return os.path.relpath(path, env.VERIF_ROOT) if path.startswith(env.VERIF_ROOT) else path
 
 
 def replay_file(prop: str, path: str, known: set, tier: str = "quick"):
@@ -459,8 +465,8 @@ def run_property(prop: str, tier: str, only_clause: Optional[str] = None) -> int
             small = ddmin_ops(clause, case, Violation(cl, disc), prop, tier)
             out[k] = dict(count=n, clause_name=cname, msg=msg, case=small)
             print(f"COLLECTED {n:6d}  {k}\n          {msg[:300]}")
-        os.makedirs(os.path.join(env.VERIF_ROOT, "evidence"), exist_ok=True)
-        with open(os.path.join(env.VERIF_ROOT, "evidence", f"collected-{prop}.json"), "w") as f:
+        os.makedirs(evidence_dir(), exist_ok=True)
+        with open(os.path.join(evidence_dir(), f"collected-{prop}.json"), "w") as f:
             f.write(json.dumps(out, indent=1, default=_jd))
     errors = [r for r in results if r.get("error")]
     if errors:
@@ -544,8 +550,8 @@ def run_property(prop: str, tier: str, only_clause: Optional[str] = None) -> int
         wall_s=round(time.time() - t0, 2),
         violations=len(violations),
     )
-    os.makedirs(os.path.join(env.VERIF_ROOT, "evidence"), exist_ok=True)
-    with open(os.path.join(env.VERIF_ROOT, "evidence", f"{prop}.json"), "w") as f:
+    os.makedirs(evidence_dir(), exist_ok=True)
+    with open(os.path.join(evidence_dir(), f"{prop}.json"), "w") as f:
         f.write(json.dumps(ev, indent=1, default=_jd))
 
     if violations:
